@@ -36,7 +36,7 @@ pub fn to_crossterm(astyle: anstyle::Style) -> crossterm::style::ContentStyle {
         attributes.set(crossterm::style::Attribute::Hidden);
     }
     if effects.contains(anstyle::Effects::STRIKETHROUGH) {
-        attributes.set(crossterm::style::Attribute::OverLined);
+        attributes.set(crossterm::style::Attribute::CrossedOut);
     }
 
     crossterm::style::ContentStyle {
